@@ -5,71 +5,71 @@ HOOK_COMMITS = ["41e634a"]
 CHECKS = {
  "C01": dict(level="exploration", design="DESIGN.md §4 C01",
    technique="runtime monitoring: byte-wise output monitor against an independent reference renderer over exhaustive small forests + seeded random forests",
-   text="Every labeled ordered forest up to 5 (quick) / 7 (thorough) nodes over a 2-letter alphabet, in 6-30 spellings, 6 branch-string tuples and 3 code paths, plus 20k/400k seeded random forests over hostile name alphabets, is rendered by the real library and compared byte for byte with an independent top-down renderer. Held-on-what-was-executed, complete below the size bound.",
+   text="Every labeled ordered forest up to 5 (quick) / 7 (thorough) nodes over a 2-letter alphabet, in 6-30 spellings, 8 branch-string tuples (incl. empty strings, strings sharing characters, blanks only) and 3 simple code paths plus one massive call per spelling (exact block cover), shape extremes (depth 400, 300 children, 60 roots, names around 4096 bytes) and 20k/400k seeded random forests over hostile name alphabets are rendered by the real library and compared byte for byte with an independent top-down renderer. Held-on-what-was-executed, complete below the size bound.",
    note="Trusted: the reference renderer (model/model.go, ~60 lines, top-down with explicit last-child flags) and the speller. Names are valid UTF-8, one line, not blank-only."),
  "C02": dict(level="exploration", design="DESIGN.md §4 C02",
    technique="runtime monitoring: malformation injector with known class/row + completeness monitor (decoded outputs vs model) over simple, non-iterator and massive paths",
-   text="Every labeled forest up to 5/6 nodes in 5 bullet-root spellings is run well-formed (must be accepted and complete in text, JSON, YAML, TOML, dry-run and walk; simple, non-iterator and massive) and with one injected malformed line of each class M1-M6 at every line position (must be rejected, format errors must name the row); plus 5k/100k random larger documents with one injection.",
+   text="Every labeled forest up to 5/6 nodes in 5 bullet-root spellings (after a heading-root spelling of the same forest) is run well-formed (accepted and complete in text, JSON, YAML, TOML, dry-run, walk; simple, non-iterator and massive; with a failing writer nil is a silent loss) and with one injected malformed line of each class M1-M6 at every line position (rejected; format errors name the row); over-long lines (64 KiB boundary) at four positions must be rejected or rendered completely; plus 5k/100k random larger documents with one injection.",
    note="Trusted: the injector's notion of 'unambiguously malformed' (DESIGN §4 C02 soundness notes); massive-mode rejections are only required to be non-nil for M3 (unit learnt from whichever block is parsed first)."),
  "C12": dict(level="exploration", design="DESIGN.md §4 C12",
    technique="runtime monitoring: crash-contained worker processes with journal-before-call, recover, goroutine deadlock monitor, hostile input generators",
-   text="Degenerate, blank-only, size-extreme, grammar-mutated and raw byte inputs (8.7k quick / 320k thorough) and programmatic trees with hostile names go through every entry point in simple and massive mode; a panic in any goroutine (worker death attributed via the journal), a recovered panic, a deadlock, or a blank-only input giving output or an error is a violation.",
+   text="Degenerate, blank-only, size-extreme, grammar-mutated and raw byte inputs (8.7k quick / 320k thorough) and programmatic trees with hostile names go through every entry point in simple and massive mode, the Output entry points also with writers failing from their k-th write; a panic in any goroutine (worker death attributed via the journal), a recovered panic, a deadlock, or a blank-only input giving output or an error is a violation.",
    note="Hang = all gtree goroutines blocked with unchanged ids in two observations 300 ms apart; a 120 s watchdog firing while goroutines are active is inconclusive. Termination is decided only on the executions run."),
  "C04": dict(level="exploration", design="DESIGN.md §4 C04",
    technique="runtime monitoring: round-trip monitor decoding real JSON/YAML/TOML output with the standard decoders and comparing with the model tree",
-   text="Exhaustive small forests (child indexing), every code point U+0000-U+02FF at three positions of a name, and 10k/200k random forests over quoting-hostile, Unicode, control and path-hostile alphabets are encoded by the real library (From-Markdown and From-Root, incl. LF/CR names on the From-Root side) and decoded with encoding/json, yaml.v3 (every value must be a string scalar) and go-toml/v2; names, order and nesting must equal the merged model forest.",
+   text="Exhaustive small forests, every code point U+0000-U+02FF at three positions of a name, and 10k/200k random forests over quoting-hostile, Unicode, control, long and path-hostile alphabets are encoded by the real library (From-Markdown simple and massive, From-Root, the deprecated aliases; every case starts with failing-writer calls whose leftovers must not show) and decoded with encoding/json, yaml.v3 (values must be string scalars) and go-toml/v2; names, order and nesting must equal the merged model forest.",
    note="Names are valid UTF-8. TOML only with one root. yaml.v3's own decoder is the YAML oracle (a plain '<<' resolved as !!merge but yielding the string is accepted)."),
  "C05": dict(level="exploration", design="DESIGN.md §4 C05",
    technique="runtime monitoring: visit-sequence recorder compared with model rows and with the text output; stop-at-k counters for failing callbacks and iterator breaks",
-   text="For exhaustive small forests x 3 branch tuples and random forests to 60 nodes, the visits of WalkFromMarkdown, WalkFromRoot, WalkIterFromRoot and the three aliases are recorded and compared with the model rows (all six accessors) and with the text output's lines; at every visit index k a failing callback must stop the walk after k+1 callbacks and come back unchanged, and an iterator break must stop after k+1 visits.",
+   text="For exhaustive small forests x 5 branch tuples and random forests to 60 nodes (inputs beyond the scanner's 4096-byte buffer included), the visits of WalkFromMarkdown, WalkFromRoot, WalkIterFromRoot and the three aliases - also with meaningless stray options - are compared with the model rows (all six accessors) and with the text output's lines; a re-used tree is walked again with other branch strings and after further Adds; at every visit index k a failing callback must stop the walk after k+1 callbacks and come back unchanged, an iterator break must stop after k+1 visits.",
    note="Names are single path elements. 'No visit after leaving the iterator' is observed during the loop, after it and after a later call on the same tree."),
  "C15": dict(level="exploration", design="DESIGN.md §4 C15",
    technique="runtime monitoring: metamorphic monitor comparing every spelling's observable results with the canonical spelling's (no model)",
-   text="Every labeled forest up to 5/6 nodes in 40 seeded / all 576 spellings (indent unit, bullet policy, # headings, CRLF, blank and whitespace-only lines incl. a leading one, final newline) plus random forests with bullet-like and blank-edged names: text, JSON, YAML, TOML, dry-run, walk rows, strict verify verdict and (for a few spellings) the mkdir snapshot must be identical to the canonical spelling's.",
+   text="Every labeled forest up to 5/6 nodes in 40 seeded / all 576 spellings (indent unit, bullet policy, # headings, CRLF, blank and whitespace-only lines incl. a leading one, final newline) plus random forests with bullet-like and blank-edged names: text, JSON, YAML, TOML, dry-run, walk rows, massive JSON (sorted), strict verify verdict and (for a few spellings) the mkdir snapshot must be identical to the canonical spelling's.",
    note="Heading spellings only for heading-safe root names; verify verdicts compared as nil-ness plus the set of message lines (map order is unspecified)."),
  "C06": dict(level="exploration", design="DESIGN.md §4 C06",
    technique="runtime monitoring: filesystem-snapshot conservation monitor (after - before in a fresh jail) against the model's path/kind set",
-   text="Every labeled forest up to 5/6 nodes over {a.go,b} with distinct roots x extension lists x target states (empty, missing nested, pre-populated, default via chdir) x 4 routes, every non-empty subset of roots pre-existing as file or directory, over-long names at every position and a target through a regular file, plus random forests: the jail's after-before snapshot must equal the model's paths and kinds, pre-existing entries must be untouched, ErrExistPath must leave the filesystem unchanged, OS refusals must be errors.",
+   text="Every labeled forest up to 5/6 nodes over {a.tar.gz,b} with distinct roots x 10 extension lists (inner-dot, bare, overlapping, duplicate, 11 entries, empty) x 7 target forms (empty, missing nested, pre-populated, default via chdir, explicit empty string, trailing slash, relative) x 4 routes with stray options, every subset of roots pre-existing as file or directory, over-long names at every position and a target through a regular file, plus random forests: the jail's after-before snapshot must equal the model's paths and kinds, pre-existing entries untouched, ErrExistPath leaves the filesystem unchanged, OS refusals are errors. gtree gets one shared extension slice per process (the model a pristine copy).",
    note="Runs as root on tmpfs (or /verif/work); symlinks and permission refusals are not in the workload; syscall-level fault injection for mkdir is done on the CLI in C16."),
  "C07": dict(level="exploration", design="DESIGN.md §4 C07",
    technique="runtime monitoring: jail-confinement monitor (snapshot outside the target) + accept/reject monitor for hostile names over all mkdir routes",
-   text="Every forest shape up to 4/5 nodes with one hostile name at every position and random forests with several hostile names go through MkdirFromMarkdown/MkdirFromRoot x dry-run/real x simple/massive x extension lists x 3 target forms; nothing outside the target may change whatever the outcome, unambiguously invalid names must be rejected, and without massive a rejected tree must leave the target untouched.",
+   text="Every forest shape up to 4/5 nodes with one hostile name at every position and random forests with several go through MkdirFromMarkdown/MkdirFromRoot and the deprecated aliases x dry-run/real x simple/massive x extension lists x 3 target forms, with stray encode options, nil options and (From-Root) trees that were already output/walked: nothing outside the target may change whatever the outcome (the working directory is a sentinel directory inside the jail), unambiguously invalid names must be rejected, and without massive a rejected tree leaves the target untouched.",
    note="The jail nests the target five levels deep; massive calls are quiesced before the snapshot so late workers are judged on their own jail. A root named '.' is not required to be rejected."),
  "C08": dict(level="exploration", design="DESIGN.md §4 C08",
    technique="runtime monitoring: verdict/report monitor parsing Verify's error lists and comparing them with the model's missing/extra sets over materialised directory states; snapshot conservation",
-   text="For every labeled forest up to 5/6 nodes every prefix-closed subset of its node paths is materialised as directory state (leaves as files or directories, 0-3 extra entries inside, beside and nested under roots, states produced by real Mkdir with each extension list) and verified strict and non-strict through the four routes with explicit and default target: nil iff the model sees no difference, the first differing root's missing and extra lists exactly the model's, filesystem unchanged, and Mkdir-then-strict-Verify passes.",
+   text="For every labeled forest up to 5/6 nodes every prefix-closed subset of its node paths is materialised (leaves or inner nodes as files, extra entries inside/beside/nested, states produced by real Mkdir with each extension list) and verified strict and non-strict through the four routes (stray options, explicit/default/trailing-slash target) and in massive mode: nil iff the model sees no difference, the first differing root's (massive: one differing root's) missing and extra lists exactly the model's, filesystem unchanged, Mkdir-then-strict-Verify passes.",
    note="No symlinks or unreadable directories; lists compared as sets; names contain no control characters (the report is line based)."),
  "C09": dict(level="exploration", design="DESIGN.md §4 C09",
    technique="runtime monitoring: jail-snapshot monitor under dry-run + report monitor (plain output + per-root counts cross-checked against a real Mkdir's snapshot delta) + accept/reject differential between dry run and real run",
-   text="Exhaustive small forests and random forests (a third with path-hostile names) x extension lists go through Output+dry-run, MkdirFromMarkdown+dry-run, MkdirFromRoot+dry-run and Verify/Walk with a stray dry-run option, simple and massive: the jail must be unchanged, the report must be the plain output followed per root by counts equal to what a real Mkdir created in a second jail, and dry-run must accept exactly the trees the real run accepts as far as names are concerned.",
+   text="Exhaustive small forests and random forests (a third with path-hostile names) x extension lists go through Output+dry-run, MkdirFromMarkdown+dry-run, MkdirFromRoot+dry-run (also dry run then real run on the SAME tree object), Verify/Walk with a stray dry-run option, simple and massive, with nil options in the lists: the jail must be unchanged, the report must be the plain output followed per root by counts equal to what a real Mkdir created in a second jail, and dry-run must accept exactly the trees the real run accepts as far as names are concerned.",
    note="Colour disabled via fatih/color's NoColor; a real-run ErrExistPath (e.g. a root named '.') is not a name rejection; massive reports compared as exact block cover."),
  "C03": dict(level="exploration", design="DESIGN.md §4 C03",
    technique="runtime monitoring: relational monitor running each From-Root operation and its From-Markdown counterpart (and alias) on the same tree and comparing bytes, visit sequences, jail snapshots and error classes; pointer-identity monitor for Add",
-   text="Every single-root labeled tree up to 5/6 nodes, built by four Add orders with repeated Adds of existing names, and 3k/50k random trees with hostile names: text (3 branch tuples), JSON, YAML, TOML, walk, iterator, mkdir, verify and dry-run through the From-Root family must equal the From-Markdown family's result for a spelling of the same tree; Add of an existing name must return the very same node; nil and non-root nodes must yield ErrNilNode/ErrNotRoot through all 12 entry points with zero bytes written and an unchanged jail; aliases must equal their replacements.",
+   text="Every single-root labeled tree up to 5/6 nodes, built by four Add orders with repeated Adds of existing names, and 3k/50k random trees with hostile names and large fan-out: text (5 branch tuples), JSON, YAML, TOML, walk, iterator (full and left early), mkdir, verify and dry-run through the From-Root family must equal the From-Markdown family's result for a spelling of the same tree; Add of an existing name must return the very same node; nil and non-root nodes must yield ErrNilNode/ErrNotRoot through all 12 entry points with zero bytes written and an unchanged jail; each alias is called on the tree its replacement has just processed and must equal it.",
    note="Massive is compared in C10. LF/CR/empty names only on the From-Root side (compared across From-Root operations and aliases). MkdirFromRoot+dry-run is compared with Output+dry-run (the CLI route), not with MkdirFromMarkdown+dry-run (known finding KF-C09-1)."),
  "C17": dict(level="exploration", design="DESIGN.md §4 C17",
    technique="runtime monitoring: differential monitor over two builds (default tags vs -tags tinywasm) of one driver fed the same case stream",
-   text="Degenerate inputs, every labeled forest up to 5/7 nodes in several spellings, every single-line malformation injection, random well-formed and mutated documents and raw bytes are sent to the same tiny driver compiled with the default tags and with -tags tinywasm; for text (default and 4 custom branch tuples), JSON and dry-run (4 extension lists) the accept/reject decision must agree and accepted outputs must be byte-identical.",
+   text="Degenerate inputs, lines around the 64 KiB scanner limit, every labeled forest up to 5/7 nodes in several spellings, every single-line malformation injection, random well-formed and mutated documents and raw bytes are sent through one process per build of the same tiny driver (default tags and -tags tinywasm); for text (default and 4 custom branch tuples), JSON and dry-run (4 extension lists) the accept/reject decision must agree and accepted outputs must be byte-identical.",
    note="The tinywasm variant is built natively (same Go sources as the web page's wasm); TinyGo/syscall-js glue is out of scope. Error texts are not compared."),
  "C14": dict(level="fault_enumeration", design="DESIGN.md §4 C14",
    technique="runtime monitoring with fault injection: fault-injecting io.Reader (sentinel after every byte offset) and io.Writer (failure / short write at every write index) wrapped around real calls; oracle on what the wrappers observed",
-   text="For each document of a seeded corpus the reader fails after every byte offset through 7 From-Markdown entry points (simple and massive) and the writer fails at every write index of the fault-free run, as error and as short write, for text, custom branches, JSON, YAML, TOML, dry-run and the non-iterator path, From-Markdown and From-Root, simple and massive: a reader failure must come back (errors.Is), any failed write must give a non-nil error, and nil implies the writer accepted the complete output.",
+   text="For each document of a seeded corpus (incl. outputs beyond one and two 4096-byte buffers and single roots that large) the reader fails after every byte offset through 7 From-Markdown entry points (simple and massive) and the writer fails at every write index, persistently, as short write and transiently, for text, custom branches, JSON, YAML, TOML, dry-run and the non-iterator path, From-Markdown and From-Root, simple and massive: a reader failure must come back (errors.Is), any failed write must give a non-nil error, nil implies the writer accepted the complete output.",
    note="Faults that never took effect are counted inconclusive. Massive results compared as exact block cover. Heading-root documents are not run in massive mode (known finding of C10)."),
  "C10": dict(level="exploration", design="DESIGN.md §4 C10",
    technique="runtime monitoring under schedule perturbation: massive result compared with the simple result of the same build (exact block cover, multisets, per-root walk order, jail snapshots, error-iff) across GOMAXPROCS values, yielding/slow user I/O and seeded delays at verifPoint hooks with recorded event traces; race detector in the thorough tier",
-   text="2400 (quick) / 20000 (thorough) seeded scenarios - documents with 1-40 roots in every spelling incl. # headings and leading blank lines, a quarter malformed, one of 9 operations each - are run once in simple mode and 10-20 times in massive mode under GOMAXPROCS 1/2/4/16 and five perturbation profiles; each massive execution must be a permutation of the simple result's root blocks (contiguous and intact), the same JSON/YAML multiset, the same walk rows with per-root order, the same filesystem and verdict, and fail iff simple fails. Evidence counts distinct (scenario, hook-event order) pairs and the hook points reached.",
+   text="2400 (quick) / 20000 (thorough) seeded scenarios - documents with 1-40 roots (some with root blocks beyond 4096 rendered bytes) in every spelling incl. # headings and leading blank lines, a quarter malformed, one of 9 operations each - run once in simple mode and 10-20 times in massive mode (also WithMassive(nil)) under GOMAXPROCS 1/2/4/16 and five perturbation profiles, plus simple/massive pairs with a failing writer; each massive execution must be a permutation of the simple result's root blocks, the same JSON/YAML multiset, the same walk rows with per-root order, the same filesystem and verdict, fail iff simple fails, and never enter the caller's writer from two goroutines at once.",
    note="Only interleavings actually produced are judged. Error texts are not compared. Known finding KF-C10-1: a massive mkdir that fails has already created other roots."),
  "C13": dict(level="exploration", design="DESIGN.md §4 C13",
    technique="runtime monitoring: client-boundary history recorder + porcupine linearizability checker against a sequential specification (the reference model), partitioned by tree; exhaustive small sequential histories, random histories, multi-goroutine histories with hand-off on the race-detector build",
-   text="Every sequential call history up to length 8 (quick) / 9 (thorough) over NewRoot/Add/operation on up to two live trees (229k / 2M histories, executed back to back in one process so package-level state left by earlier histories is part of the exploration), random histories of 20-200 calls, and histories split across 2-8 goroutines with trees handed over through a channel and concurrent independent From-Markdown calls are recorded and checked per tree with porcupine: every operation's result (text with 3 branch tuples, walk, iterator, JSON, dry-run, mkdir delta, verify) must be the model's result for the tree as built so far, and Add must report new/existing as the model says. The concurrent workload also runs under the race detector.",
+   text="Every sequential call history up to length 8 (quick) / 9 (thorough) over NewRoot/Add/operation on up to two live trees (254k / 2M histories back to back in one process), deep chains (depth 12-70), random histories of 20-200 calls, and histories split across 2-8 goroutines with hand-off and concurrent independent From-Markdown calls (text, massive text/JSON/YAML, JSON) are recorded and checked per tree with porcupine: every operation's result (text x 3 branch tuples, walk, iterator, JSON, dry-run, mkdir delta, verify, and the failing variants: aborted walk, abandoned iterator, failing writer, pre-existing root, failing verify) must be the model's for the tree as built so far. The concurrent workload also runs under the race detector.",
    note="No two goroutines touch the same tree at the same time. Only client-visible results are judged (no internal invariant such as index uniqueness)."),
  "C11": dict(level="fault_enumeration", design="DESIGN.md §4 C11",
    technique="runtime monitoring with fault and cancellation injection: goroutine deadlock/leak monitor (quiescence on runtime.Stack states), cancellation oracle, event-triggered cancellation and seeded delays through the verifPoint hooks, Go race detector on a second build of the same workload",
-   text="Massive-mode calls of every operation (incl. the four From-Root ones) are run with 0-30 failing blocks at each pipeline stage, failing readers/writers/callbacks, cancellation after every input offset and at every hook event, pre-cancelled and deadline contexts, under seeded GOMAXPROCS and delay profiles (13k executions quick). Each call must return (deadlock monitor), leave no gtree goroutine behind (leak monitor), and under cancellation return nil only with complete output and otherwise the context's error; the same workload on the -race build must produce no DATA RACE report.",
+   text="Massive-mode calls of every operation (incl. From-Root) with 0-30 failing blocks at each pipeline stage, failing readers/writers/callbacks, cancellation after every input offset and at every hook event, pre-cancelled and deadline contexts, bursts of plain calls and large roots with a slow writer, under seeded GOMAXPROCS and delay profiles (16k executions quick). Each call must return (deadlock monitor), leave no gtree goroutine behind (leak monitor), never call the writer concurrently, and under cancellation return nil only with complete output and otherwise the context's error; the same workload on the -race build must produce no DATA RACE report.",
    note="Bounded time = no deadlock and return before a 60 s watchdog (firing = inconclusive). Goroutines are attributed by stack frames, one call at a time. A clean race run covers only executed accesses."),
  "C16": dict(level="exploration", design="DESIGN.md §4 C16",
    technique="runtime monitoring of the real CLI process: stdout/stderr/exit-status/jail-snapshot monitor against the library's result for the corresponding options; syscall-level fault injection with strace (ENOSPC on the N-th stdout write, EACCES on the N-th mkdirat / file creation)",
-   text="The binary built from /repo/cmd/gtree is run ~2800 (quick) / ~55000 (thorough) times: seeded documents (well-formed, malformed, hostile names, blank) through output (formats, --massive, stdin/--file), mkdir (dry-run, -e lists, --target-dir, pre-existing root) and verify (--strict, --target-dir, injected differences); stdout on /dev/full and closed; template|output against the README block and the model; 15 usage-error command lines; strace-injected ENOSPC at every stdout write index and EACCES at every mkdirat / file creation. stdout must equal the library's bytes, the filesystem effect must equal the library's, exit status 0 iff the library call succeeds, failures need a diagnostic on stderr, never a crash.",
+   text="The binary built from /repo/cmd/gtree is run ~2800 (quick) / ~55000 (thorough) times: seeded documents through output (formats, --massive, stdin/--file), mkdir (dry-run, -e lists, --target-dir, --file, pre-existing root) and verify (--strict, --target-dir, --file, injected differences); stdout on /dev/full and closed; template|output against README and model; 15 usage-error command lines; strace-injected ENOSPC at every stdout write index and EACCES at every mkdirat / file creation. stdout must equal the library's bytes (also the partial output of a failing call), the filesystem effect the library's, exit status 0 iff the library call succeeds, failures need a diagnostic, never a crash.",
    note="--watch and web excluded. Closed stdout is a success state for a Go binary (runtime re-opens it on /dev/null). A strace run is a fault case iff its log contains (INJECTED)."),
 }
 PENDING = {}
